@@ -387,6 +387,13 @@ impl KeyExchangeClient {
 
         let response = KeyExchangeResponse::parse(&mut io).await?;
 
+        // Only adopt parameters we actually offered.
+        if !self.protocols.contains(&response.protocol)
+            || !self.algorithms.contains(&response.algorithm)
+        {
+            return Err(NtsError::Invalid);
+        }
+
         let keys = NtsKeys::extract_from_connection(
             io.get_ref().1,
             response.protocol,
